@@ -772,7 +772,13 @@ def o_C17(sc):
     kept, removed = quiet(spk.filter_by_spike_sync, L, float(thr), return_removed_spikes=True, **mt, **kw)
     P = quiet(spk.spike_sync_profile, L, **mt, **kw)
     prof = {float(x): (y, mp) for x, y, mp in list(zip(P.x, P.y, P.mp))[1:-1]}
-    mtq = Fr(sc['kw'].get('max_tau') or 0); m = Fr(sc['kw'].get('mrts') or 0)
+    mtq = Fr(sc['kw'].get('max_tau') or 0)
+    if sc['kw'].get('mrts') in ('auto', -1):
+        # 'auto' stands for the threshold pooled over ALL trains of the list (as in the multivariate profile)
+        from pyspike.isi_lengths import default_thresh
+        m = Fr(float(quiet(default_thresh, quiet(spk.spikes.reconcile_spike_trains, L))))
+    else:
+        m = Fr(sc['kw'].get('mrts') or 0)
     for i, (s, ts, te) in enumerate(sc['trains']):
         cnt = [0] * len(s)
         for j, (o, _, _) in enumerate(sc['trains']):
